@@ -200,6 +200,7 @@ Definition spec_step (c : cfg) (p : past) (o : sop) : past :=
   end.
 
 Record Inv (c : cfg) (s : syn) (p : past) : Prop := mkInv {
+  inv_N : N (spk NM s) = recordsz NM (cdt NM c) (cdelay NM c);
   inv_Nc : N (cur NM s) = N (spk NM s);
   inv_Nn : N (neg NM s) = N (spk NM s);
   inv_ws : wfr (cshape NM c) (spk NM s);
